@@ -123,7 +123,7 @@ func runC14(r *ev.Run, thorough bool) {
 	if thorough {
 		maxLen = 3
 	}
-	r.Rule = fmt.Sprintf("4 services x ALL byte strings of length <= %d; byte-sum automata 256x256 and CRC16 automaton (65,536 states x %s next bytes, each state reached by its 2-byte witness) against bitwise references; long inputs: uniform runs b^n for b in %s at n = ceil(2^31/b)-1,+0,+1 (<=32 MiB; hidden accumulator wider than the output), ramps and alternations at lengths 2^k-1,2^k,2^k+1 up to 2^%d; every case on a partially consumed buffer, checking value, range 0..255 for byte sums, buffer untouched, second call equal; distinct = (algorithm,input)", maxLen, map[bool]string{false: "16", true: "256"}[thorough], map[bool]string{false: "{80,C0,FF}", true: "40..FF"}[thorough], map[bool]int{false: 16, true: 24}[thorough])
+	r.Rule = fmt.Sprintf("4 services x ALL byte strings of length <= %d; byte-sum automata 256x256 and CRC16 automaton (65,536 states x %s next bytes, each state reached by its 2-byte witness) against bitwise references; long inputs: uniform runs b^n for b in %s at n = ceil(2^31/b)-1,+0,+1 (<=32 MiB; hidden accumulator wider than the output), ramps and alternations at lengths 2^k-1,2^k,2^k+1 up to 2^%d; EVERY length 4..1200 (9000 in thorough) for uniform FF, ramp and alternating patterns; every case on a partially consumed buffer, checking value, range 0..255 for byte sums, buffer untouched, second call equal; distinct = (algorithm,input)", maxLen, map[bool]string{false: "16", true: "256"}[thorough], map[bool]string{false: "{80,C0,FF}", true: "40..FF"}[thorough], map[bool]int{false: 16, true: 24}[thorough])
 	r.Assume("reference CRC-16/MODBUS, CRC-32/IEEE and byte sums are the bitwise implementations in engine/refmodel, checked against the published check values for \"123456789\"")
 	// self-check of the references against the published check values
 	if rm.CRC16Modbus([]byte("123456789")) != 0x4B37 || rm.CRC32IEEE([]byte("123456789")) != 0xCBF43926 {
@@ -224,6 +224,35 @@ func runC14(r *ev.Run, thorough bool) {
 								r.Violate(v)
 							}
 						}
+					}
+				}
+			})
+		}
+	}
+	// every length 0..maxEvery for three patterns: catches defects tied to a particular length, block size or
+	// alignment (vectorised or multi-byte-per-step implementations) that powers of two +-1 would miss
+	maxEvery := 1200
+	if thorough {
+		maxEvery = 9000
+	}
+	for _, alg := range sumAlgs {
+		alg := alg
+		for _, pat := range []struct {
+			kind string
+			b    byte
+		}{{"uniform", 0xFF}, {"ramp", 0x80}, {"alt", 0x7F}} {
+			pat := pat
+			jobs = append(jobs, func(l *ev.Local) {
+				for n := 4; n <= maxEvery; n++ {
+					w := genInput(pat.kind, pat.b, n)
+					rp := map[string]any{"op": "sum", "alg": alg, "gen": map[string]any{"kind": pat.kind, "byte": int(pat.b), "n": n}}
+					l.Evals++
+					l.Transitions++
+					l.Traces++
+					r.SetDistinctAdd(1)
+					if v := sumOne(alg, w, rp); v != nil {
+						r.Violate(v)
+						return
 					}
 				}
 			})
